@@ -28,9 +28,15 @@ func (r *Reshape) Init(*onnx.NodeProto) error {
 func (r *Reshape) Apply(inputs []tensor.Tensor) ([]tensor.Tensor, error) {
 	t := inputs[0]
 
-	newShape, err := ops.AnyToIntSlice(ops.IfScalarToSlice(inputs[1].Data().([]int64)))
-	if err != nil {
-		return nil, err
+	var err error
+
+	// An empty shape tensor requests a scalar; it holds no data that could be read.
+	newShape := []int{}
+	if inputs[1].Shape().TotalSize() != 0 {
+		newShape, err = ops.AnyToIntSlice(ops.IfScalarToSlice(inputs[1].Data()))
+		if err != nil {
+			return nil, err
+		}
 	}
 
 	err = processShape(newShape, t.Shape())
